@@ -126,6 +126,11 @@ def r_detect_input(ck: Checker) -> None:
     ck.add("in_body = statements using the predicate in body or objective, any sign", orgb == {f"chain(body_predicates({stm},SIGNS),minimize_predicates({stm},SIGNS))[*]"}, func, inb[0], f"iterates {sorted(orgb)}", "")
     orgh = {st.origin.get(unparse(inh[0].func.value.slice).split(".")[0], "") for st in it.states(inh[0])}  # type: ignore[attr-defined]
     ck.add("in_head = statements deriving the predicate", orgh == {f"headderivable_predicates({stm})[*]"}, func, inh[0], f"iterates {sorted(orgh)}", "")
+    for site, what in ((inh[0], "deriving"), (inb[0], "using"), (der[0], "derivable")):
+        sl = enclosing_loop(func, site)
+        okr, nr = every_iteration_reaches(ck, func, sl, site, None) if sl is not None else (False, 0)
+        ck.add(f"every {what} occurrence is recorded, not only the first per predicate", okr and nr > 0, func, site, f"`{short(unparse(site), 60)}` unconditional in its loop: {okr}",
+               "the test 'defined only by statements that also use it' compares the complete sets of statement indexes: a recursive rule listed before the base case would make the predicate look self-supporting")
     idx = {unparse(c.args[0]) for c in inb + inh}
     ck.add("both indexes record the statement index", len(idx) == 1, func, inb[0], f"recorded {sorted(idx)}", "")
     key = next(iter(idx))
